@@ -3,6 +3,8 @@
    case:   wc <sink> <fg|-> <bg|-> <pre hex> <data hex> <script>
      sink    box | send | sync | ref | fn   scripted inner writer behind the named impl
              vec | file                     accept-all writers (script must be `-` / `all`)
+             out | err                      the real std::io::Stdout / Stderr of a child process (accept-all)
+             full | ro                      std::fs::File whose every write fails (/dev/full, read-only)
      fg, bg  colour number 0..15 or `-`
      pre     what the writer holds already
      script  comma-separated: a<n> accept n, eI|eW|eO|eZ fail Interrupted / WouldBlock /
@@ -63,8 +65,12 @@ let wc side f =
   let pre = nlist (unhex (List.nth f 3)) in
   let data = nlist (unhex (List.nth f 4)) in
   let script = parse_script (List.nth f 5) in
-  let plain_sink = sink = "vec" || sink = "file" in
-  if plain_sink && script <> [] then failwith "vec/file need an accept-all script";
+  (* `full` / `ro`: a File whose every write fails *)
+  let failing = sink = "full" || sink = "ro" in
+  let script = if failing then List.init 16 (fun _ -> Fail Other) else script in
+  let plain_sink = sink = "vec" || sink = "file" || sink = "out" || sink = "err" || failing in
+  let script_given = if failing then [] else script in
+  if plain_sink && script_given <> [] then failwith "vec/file need an accept-all script";
   let w0 = { w_script = script; w_received = pre; w_calls = [] } in
   let w', r =
     match side with
